@@ -194,7 +194,13 @@ def images(ev, rng, tier):
     yield (len(ev), "proc", {f: bytes(b) for f, b in cur.items() if not f.endswith("-shm")})
 
 
-def gen_history(rng, tier):
+def gen_history(rng, tier, fixed=None):
+    if fixed == "bigsnap":
+        # a large snapshot REPLACING an existing one (one request, many pages, old overflow chain freed),
+        # once over a small one and once over a large one
+        return ["ensure 1", "av 1 latest:1 b:1", "as 1 latest:1 b:9,9", "av 1 latest:1 r:5000",
+                f"as 1 latest:1 r:{rng.choice([262144, 300000, 400000])}", "av 1 latest:1 b:2",
+                f"as 1 latest:1 r:{rng.choice([270000, 524288])}", "av 1 latest:1 r:100"]
     n = rng.randint(4, 8) if tier != "thorough" else rng.randint(10, 25)
     ops = ["ensure 1"]
     have = 0
@@ -251,7 +257,7 @@ def run_c04(tier, seed, replay=None):
             hd = os.path.join(work, f"h{hi}")
             os.makedirs(os.path.join(hd, "data"))
             via_http = hi >= nh
-            reqs = gen_http_history(rng, tier) if via_http else gen_history(rng, tier)
+            reqs = gen_http_history(rng, tier) if via_http else gen_history(rng, tier, "bigsnap" if hi == 0 else None)
             sym = [f"case h{hi}"] + (["boot listen=flag:1 dir=flag allow=none versions=default days=default"] if via_http else [])
             for j, r in enumerate(reqs):
                 sym += [r, f"ack {j + 1}"]
